@@ -535,6 +535,9 @@ func runSelect(c *Ctx) {
 		// ---- B. selectProofsForAmount through a real Wallet
 		selectForAmountCase(c, sc, replay, add)
 
+		// ---- B2. getProofsForAmount / swapToSend up to the swap request, recomposed from the real pieces
+		getProofsForAmountCase(c, sc, replay, add)
+
 		// ---- C. fees
 		{
 			got := uint64(wallet.VerifFeesForProofs(toGoProofs(sc.proofs), ksName(1), uint(sc.activePpk), sc.inactMap()))
@@ -713,6 +716,103 @@ func selectForAmountCase(c *Ctx, sc *selCase, replay map[string]any, add func(Sx
 		}
 	}
 	selMonitors(c, sc, "selectProofsForAmount", held, sc.amount, sc.inc, out, replay, shape)
+}
+
+// getProofsForAmountCase recomposes, from the REAL functions, what getProofsForAmount and swapToSend compute before
+// the swap request goes out (Tie.Select pins the statements copied here):
+//
+//	selectedProofs, err := w.selectProofsForAmount(amount, mint, includeFees)
+//	fees = uint64(feesForProofs(selectedProofs, mint)) (if includeFees); totalAmount := amount + fees
+//	if selectedProofs.Amount() == totalAmount { return selectedProofs }           -> (offline …)
+//	swapToSend: send split, amount += feesToReceive, proofsToSwap := w.selectProofsForAmount(amount, mint, true),
+//	proofsAmount, fees, changeAmount := proofsAmount - amount - uint64(fees), changeSplit := w.splitWalletTarget(…)
+//
+// and compares it with the model's getProofsForAmount (blind, tie classes 1 and 2 only: two selections with
+// independent tie-breaking are involved).  Monitors: the offline proofs are worth exactly amount + the mint's
+// fee for them; a swap request is balanced: inputs = send + change + the mint's fee for the inputs.
+func getProofsForAmountCase(c *Ctx, sc *selCase, replay map[string]any, add func(Sx, string, string, bool)) {
+	inactive := filterKs(sc.proofs, func(k int) bool { _, ok := sc.inact[k]; return ok })
+	active := filterKs(sc.proofs, func(k int) bool { return k == 1 })
+	held := append(append([]selProof(nil), inactive...), active...)
+	class := sc.tieClass(inactive, true)
+	if class == 3 {
+		c.Hist("unchecked-blind", "getProofsForAmount/tie3")
+		return
+	}
+	view := map[int]string{1: "akset", 2: "aset"}[class]
+	var impl string
+	kind := ""
+	func() {
+		defer func() {
+			if r := recover(); r != nil {
+				impl, kind = Render(L(A("panic"), S(fmt.Sprint(r)))), "panic"
+			}
+		}()
+		first := callSelectForAmount(sc, sc.amount, sc.inc)
+		if !first.ok {
+			impl, kind = first.render(view), first.kind
+			return
+		}
+		var fees uint64
+		if sc.inc {
+			fees = uint64(wallet.VerifFeesForProofs(toGoProofs(first.ps), ksName(1), uint(sc.activePpk), sc.inactMap()))
+		}
+		if toGoProofs(first.ps).Amount() == sc.amount+fees {
+			impl, kind = Render(L(A("offline"), viewProofs(view, first.ps))), "offline"
+			// monitor: exactly amount + the fee the mint charges for those very proofs
+			if got, ok := sumNoWrap(amountsOf(first.ps)); ok {
+				var fee uint64
+				if sc.inc {
+					fee, _ = specFee(sc.ppksOf(first.ps))
+				}
+				if need, ok2 := addNoWrap(sc.amount, fee); ok2 && got != need {
+					c.MonitorFail("C18", "C18/getProofsForAmount/offline-not-exact",
+						fmt.Sprintf("offline selection worth %d handed over for amount %d + fee %d", got, sc.amount, fee), replay)
+				}
+			}
+			return
+		}
+		ftr, amount2, split := realSendSplit(sc.activePpk, sc.amount, sc.inc)
+		second := callSelectForAmount(sc, amount2, true)
+		if !second.ok {
+			impl, kind = second.render(view), "swap-"+second.kind
+			return
+		}
+		inputs := toGoProofs(second.ps)
+		pa := inputs.Amount()
+		f := uint64(wallet.VerifFeesForProofs(inputs, ksName(1), uint(sc.activePpk), sc.inactMap()))
+		changeAmount := pa - amount2 - f
+		var change []uint64
+		if changeAmount > 0 {
+			if changeAmount > 1<<62 {
+				// only reachable through uint64 wrap-around; the split of such an amount is compared in part E
+				impl, kind = "", "skip"
+				return
+			}
+			change = newSelWallet(sc).VerifSplitWalletTarget(changeAmount, "verif")
+		}
+		impl = Render(L(A("swap"), N(amount2), N(ftr), viewProofs(view, second.ps), Ns(split), N(pa), N(f), N(changeAmount), Ns(change)))
+		kind = "swap"
+		// monitor: balanced swap request (exact arithmetic, independent fee evaluator)
+		S, ok1 := sumNoWrap(amountsOf(second.ps))
+		fee, ok2 := specFee(sc.ppksOf(second.ps))
+		snd, ok3 := sumNoWrap(split)
+		chg, ok4 := sumNoWrap(change)
+		if ok1 && ok2 && ok3 && ok4 {
+			t1, o1 := addNoWrap(snd, chg)
+			t2, o2 := addNoWrap(t1, fee)
+			if o1 && o2 && t2 != S {
+				c.MonitorFail("C18", "C18/swapToSend/unbalanced-swap",
+					fmt.Sprintf("swap inputs worth %d, send %d + change %d + mint fee %d", S, snd, chg, fee), replay)
+			}
+		}
+	}()
+	if kind == "skip" {
+		return
+	}
+	key := fmt.Sprintf("getProofsForAmount/tie%d/%s/inc=%v/in%d/ppk%s", class, kind, sc.inc, len(sc.inact), feeBucket(sc.activePpk))
+	add(L(A("select.gpfa"), A("stable"), A(view), sc.mintSx(), proofsSx(inactive), proofsSx(active), N(sc.amount), B(sc.inc)),
+		impl, key, len(held) > 0)
 }
 
 // selMonitors: model-free statements of C18 over one selection outcome.
